@@ -263,8 +263,8 @@ def specAtan2 (y x : Bits) : Expect :=
     else if mx = 0 then .near (pi2Bits ny) 1
     else .cls ny true true false (some (mag (piBits false) + 1))
 
-/-- operands of the known finding C15-atan2-underflow-sign: y < 0, x < 0, both finite and non-zero, and the
-    quotient y/x underflows to zero -/
+/-- operands of the (repaired) finding C15-atan2-underflow-sign: y < 0, x < 0, both finite and non-zero, and the
+    quotient y/x underflows to zero — there Go's math.Atan2 answers +π -/
 def atan2UnderflowClass (y x : Bits) : Bool :=
   match decode y, decode x with
   | .fin ny my _, .fin nx mx _ => ny && nx && my != 0 && mx != 0 && isZero (div y x)
